@@ -44,6 +44,8 @@ def run_job(job):
         return run_insn(job)
     if job.get("op") == "names":
         return {"id": job["id"], "names": list(behaviors().keys())}
+    if job.get("op") == "behaviors":
+        return {"id": job["id"], "behaviors": {k: list(v) for k, v in behaviors().items()}}
     if job.get("op") == "parse_single":
         # the corpus path: Parser.parse_single builds its OWN Lark object for every instruction
         res = {"id": job["id"]}
@@ -163,6 +165,9 @@ def run_insn(job):
             # emitted names depend on which instructions this worker compiled before; compile every instruction as a
             # fresh Compiler would (history dependence itself is the subject of C14 / C08)
             holder.hybrid_op_count = 0
+        if job.get("hstart") is not None:
+            # ... or as a Compiler would whose earlier compilations used up `hstart` temporaries (counter sweep)
+            holder.hybrid_op_count = int(job["hstart"])
         res["hpre"] = holder.hybrid_op_count
         try:
             with contextlib.redirect_stdout(io.StringIO()):
